@@ -475,7 +475,7 @@ func stress(id string, seed uint64, rounds int) runner.Result {
 	var fails []string
 	var n int64
 	for round := 0; round < rounds && len(fails) == 0; round++ {
-		kind := round % 4
+		kind := round % 5
 		var barrier int32
 		wait := func(k int32) {
 			atomic.AddInt32(&barrier, 1)
@@ -552,6 +552,38 @@ func stress(id string, seed uint64, rounds int) runner.Result {
 			default:
 				fails = append(fails, "channel open after Set returned")
 			}
+		case 4: // Signal: the channel exists before Set; whoever sees it closed must see the value
+			var s drpcsignal.Signal
+			ch := s.Signal()
+			var wg sync.WaitGroup
+			var bad int32
+			check := func() {
+				err, set := s.Get()
+				if !set || valOf(err) != 7 || !s.IsSet() || s.Err() == nil {
+					atomic.AddInt32(&bad, 1)
+				}
+			}
+			wg.Add(4)
+			for i := 0; i < 2; i++ {
+				go func() { // polls on its own core
+					defer wg.Done()
+					wait(3)
+					for {
+						select {
+						case <-ch:
+							check()
+							return
+						default:
+						}
+					}
+				}()
+			}
+			go func() { defer wg.Done(); <-ch; check() }() // parked in the receive
+			go func() { defer wg.Done(); wait(3); s.Set(&valErr{7}) }()
+			wg.Wait()
+			if bad > 0 {
+				fails = append(fails, fmt.Sprintf("round %d: closed-implies-visible: %d observer(s) saw the Signal's channel closed while Get/IsSet/Err still reported it unset", round, bad))
+			}
 		case 3: // Chan: first Send racing first Recv racing Make
 			var c drpcsignal.Chan
 			var wg sync.WaitGroup
@@ -574,7 +606,7 @@ func stress(id string, seed uint64, rounds int) runner.Result {
 	}
 	r := runner.Hold(id, id, true)
 	r.Events = n
-	r.Distinct = 4
+	r.Distinct = 5
 	return r
 }
 
@@ -730,7 +762,7 @@ func main() {
 	runner.Main(runner.Check{
 		Property: "C19",
 		Level:    "exploration",
-		Rule:     "one case = one concurrent history: 2-6 goroutines each running 1-3 of Set/Get/Err/IsSet/Signal/Wait/poll on one drpcsignal.Signal (or Get/Get+wait/Close/Send/Recv/Full/Make on one Chan), with one goroutine parked at one of the 7 (Signal) / 2 (Chan) internal points until every other goroutine has finished or blocked, then released; plus spin-barrier stress rounds of the four first-use races (Get vs Close, Signal vs Set, 2 Set vs 2 Signal, Send vs Recv vs Make). Oracles: exactly one Set wins; porcupine linearizability of the recorded history against a write-once register; one channel identity; channel closed once the winning Set / Close returned; census shows no blocked waiter; no panic; race detector silent. Non-trivial: every case (>= 2 goroutines). Distinct: by programs, park point and whether the park was reached.",
+		Rule:     "one case = one concurrent history: 2-6 goroutines each running 1-3 of Set/Get/Err/IsSet/Signal/Wait/poll on one drpcsignal.Signal (or Get/Get+wait/Close/Send/Recv/Full/Make on one Chan), with one goroutine parked at one of the 7 (Signal) / 2 (Chan) internal points until every other goroutine has finished or blocked, then released; plus spin-barrier stress rounds of the four first-use races (Get vs Close, Signal vs Set, 2 Set vs 2 Signal, Send vs Recv vs Make) and of closed-implies-visible (two pollers and a parked receiver on an existing channel racing Set). Oracles: exactly one Set wins; porcupine linearizability of the recorded history against a write-once register; one channel identity; channel closed once the winning Set / Close returned; census shows no blocked waiter; no panic; race detector silent. Non-trivial: every case (>= 2 goroutines). Distinct: by programs, park point and whether the park was reached.",
 		Assumptions: []string{
 			"Chan histories never Send/Full/Make after Close (sending on a closed channel panics by Go semantics and the library never does it)",
 			"an open channel observed by a poll concurrent with the winning Set is allowed; a poll that starts after that Set returned must see it closed",
